@@ -71,6 +71,19 @@ def gen_expr(rng):
     return e, v
 
 
+# Expressions whose value is the same for every document: each argument of a call is evaluated on the focus of the
+# call, whatever the other arguments did (XPath 1.0 and the compatibility mode take the first node of a node-set and
+# abandon the rest of its evaluation)
+INVARIANTS = [
+    ("count(//*[concat(*, '|', name()) != concat(string(*[1]), '|', name())])", 0),
+    ("count(//*[not(contains(concat(*, '|', name()), concat('|', name())))])", 0),
+    ("count(//*[string-length(concat(.//*, name())) != string-length(string((.//*)[1])) + string-length(name())])", 0),
+    ("count(//*[substring-after(concat(*, '#', local-name()), '#') != local-name()])", 0),
+    ("count(//*[starts-with(name(), substring(*, 1, 0)) = false()])", 0),
+    ("count(//*[translate(concat(@*, '~', name()), '~', '') != concat(string(@*[1]), name())][not(contains(string(@*[1]), '~'))])", 0),
+]
+
+
 def gen_case(rng, tier):
     thorough = tier == 'thorough'
     ndocs = rng.randint(1, 3)
@@ -127,6 +140,10 @@ def gen_case(rng, tier):
             continue
         if x > 0.93:
             ops.append({'op': 'clock_jump', 'to': rng.randrange(len(INSTANTS))})
+            continue
+        if x > 0.88:
+            ops.append({'op': 'invariant', 'k': rng.randrange(len(INVARIANTS)), 'doc': rng.randrange(ndocs),
+                        'mode': rng.choice(['1.0', 'compat'])})
             continue
         op = {'op': 'select', 'sel': rng.randrange(nsel), 'doc': rng.randrange(ndocs),
               'vars': rng.randrange(nvs), 'tz': rng.choice(TZS), 'frag': rng.choice([None, None, None, True, False]),
@@ -428,6 +445,25 @@ def run_case(case, world):
         if kind == 'gc':
             gc.collect()
             shape.append('gc')
+            continue
+        if kind == 'invariant':
+            expr, want = INVARIANTS[op['k'] % len(INVARIANTS)]
+            root_ = docs[op['doc'] % len(docs)]['root']
+            stats['evaluations'] += 1
+            try:
+                if op['mode'] == '1.0':
+                    got = elementpath.select(root_, expr, namespaces=dict(NSMAP), parser=elementpath.XPath1Parser)
+                else:
+                    got = elementpath.select(root_, expr, namespaces=dict(NSMAP), parser=elementpath.XPath2Parser,
+                                                compatibility_mode=True)
+            except Exception as e:
+                got = canon_exc(e)
+            world.event(('invariant', idx, op['mode'], repr(got)[:60]))
+            if got != want:
+                violate('FOCUS_LEAK', 'invariant-expression-differs:%s' % op['mode'],
+                        '%s is %r, it is %r for every document (each argument is evaluated on the focus of the call)' % (
+                            expr, got, want), ['invariant', 'mode:' + op['mode']])
+            shape.append('invariant')
             continue
         feats = [kind, 'via:' + str(op.get('via'))]
         before = snapshot()
